@@ -118,6 +118,12 @@ func init() {
 				r.Outcome(be + ":" + o.Class)
 				r.Distinct(be + "|" + o.Key())
 				if cc := crashClass(o); cc != "" {
+					if o.Class == "HANG" && o.Msg == "poll budget exceeded" {
+						// no reference run length exists in this domain: a loop over a huge range
+						// (e.g. `(0 ** -1).to_range()`) is long, not wedged
+						r.Note("ran-longer-than-the-poll-budget(no reference)", 1)
+						continue
+					}
 					r.Fail(cc, append([]string{"backend:" + be}, tags...), text, o.String())
 				}
 			}
